@@ -79,6 +79,35 @@ def kraus_complete(ctx, rule="C07.kraus-complete"):
     ctx.floor(rule, 2)
 
 
+def hermitian_outer(ctx, rule="C07.hermitian-outer"):
+    ctx.explain(f"{rule}: a density matrix built from a ket is |psi><psi| = outer(psi, conj(psi)): in the Fock backend and the "
+                "state classes every np.outer(x, y) whose two operands are the same vector has exactly one of them conjugated "
+                "(outer(psi, psi) is not Hermitian for a complex ket: complex trace, negative eigenvalues).")
+    def strip(e):
+        c = 0
+        while True:
+            if isinstance(e, ast.Call) and isinstance(e.func, ast.Attribute) and e.func.attr in ("conj", "conjugate") and not e.args:
+                e, c = e.func.value, c + 1
+            elif isinstance(e, ast.Call) and dotted(e.func) in ("np.conj", "np.conjugate") and len(e.args) == 1:
+                e, c = e.args[0], c + 1
+            else:
+                return ast.unparse(e).replace(" ", ""), c
+    n = 0
+    for rel in ("backends/fockbackend/circuit.py", "backends/fockbackend/ops.py", "backends/fockbackend/backend.py",
+                "backends/states.py"):
+        for f in ctx.tree.module(rel).functions.values():
+            for c in walk_no_nested(f.node):
+                if isinstance(c, ast.Call) and dotted(c.func) in ("np.outer", "outer", "numpy.outer") and len(c.args) == 2:
+                    (a, ca), (b, cb) = strip(c.args[0]), strip(c.args[1])
+                    if a != b:
+                        continue
+                    n += 1
+                    ok = (ca + cb) % 2 == 1
+                    ctx.ob(rule, f.site, ok, "" if ok else f"`{ast.unparse(c)[:50]}` builds the projector of `{a}` without a "
+                           "conjugate: the density matrix is not Hermitian for a complex ket", role="outer", line=c.lineno)
+    ctx.floor(rule, 5)
+
+
 def rules(ctx):
     G.mirror(ctx, "C07.mirror")
     ctx.floor("C07.mirror", 14)
@@ -86,3 +115,8 @@ def rules(ctx):
     c06.gain(ctx, "C07.gain")
     weights_normalised(ctx)
     kraus_complete(ctx)
+    hermitian_outer(ctx)
+    # a preparation that does not clear the correlations of its target leaves a covariance that violates the uncertainty relation
+    from . import common_backend as B
+    B.prep_reset(ctx, "C07.prep-reset")
+    ctx.floor("C07.prep-reset", 12)
